@@ -181,6 +181,37 @@ func runC13(a *A) {
 		}
 	})
 	a.Rule("shape/like-shortcut-operand", 3, func() { a.ruleLikeShortcutOperand() })
+	a.Rule("shape/like-rewrite-mentions-column", 1, func() {
+		// whatever a LIKE is rewritten to has to look at the column: a constant (LIKE '%' -> true) also
+		// holds for a NULL or missing column, for which LIKE is not true
+		fn := a.Method("functions", "ExprBridge", "convertLikeToFunction")
+		field := fn.Params[1]
+		var bad []string
+		n := 0
+		for _, b := range fn.Blocks {
+			ret, ok := b.Instrs[len(b.Instrs)-1].(*ssa.Return)
+			if !ok {
+				continue
+			}
+			for _, l := range phiLeaves(ret.Results[0]) {
+				n++
+				if c, isCall := l.(*ssa.Call); isCall {
+					uses := false
+					for _, e := range appendedElems(&c.Call) {
+						if mi, isMI := e.(*ssa.MakeInterface); isMI && mi.X == ssa.Value(field) {
+							uses = true
+						}
+					}
+					if uses {
+						continue
+					}
+				}
+				bad = append(bad, TermOf(l, nil).String())
+			}
+		}
+		a.Check(len(bad) == 0 && n > 0, fname(fn)+"#mentions-column", fn.Pos(), fmt.Sprintf("all %d rewrites test the column", n),
+			"LIKE is rewritten to "+strings.Join(bad, ", ")+" without looking at the column: the predicate also holds for a NULL or missing column")
+	})
 	a.Rule("ordtab/wildcard-priority", 3, func() {
 		for _, m := range []*ssa.Function{a.Func("condition", "matchesLikePattern"), a.Func("expr", "matchLikePattern"), a.Method("functions", "ExprBridge", "matchesLikePattern")} {
 			a.ruleWildcardPriority(m)
